@@ -24,6 +24,7 @@ type spawnedGo struct {
 }
 
 type envState struct {
+	localLoc, utcLoc *value // the cells behind time.Local and time.UTC (zone model)
 	i       *interpreter
 	spawned []*spawnedGo
 	uuidSeq int
